@@ -398,10 +398,11 @@ class Runner:
                 text = (f"{CLASSES[self.arity]} step {n}: {lab['act']} name={lab['name']} assoc={lab['assoc']} k={lab['k']} "
                         f"ix={lab['ix']} clear={lab.get('clear')} mask={lab['mask']} on {_short(cur)}: specified {lab['out']} -> {_short(post)}; "
                         f"geoh5py {out} -> {_short(obs)}")
-                if dev is not None and kind == "valid-op-fails":
-                    # known as-built refusal that leaves everything consistent: the property does not oblige
-                    # the operation to succeed
-                    self.stats["tolerated:" + dev] += 1
+                refusers = [sorted(d["name"]) for d in lab["devs"] if d["out"] != "ok"]
+                if kind == "valid-op-fails" and (dev is not None or refusers):
+                    # a call that geoh5py as built is known to refuse (TLC printed a deviation that raises
+                    # here) and everything is still consistent: the property does not oblige it to succeed
+                    self.stats["tolerated:" + (dev or "+".join(min(refusers, key=lambda h: (len(h), h))))] += 1
                 elif dev is not None:
                     self.bad(f"{dev}/{kind.split(chr(58))[0]}", text, n)
                 else:
